@@ -103,8 +103,10 @@ theorem cbRead_pinv (sc : Script) (c : Nat) {s : St} (h : PInv s) : PInv (cbRead
   exact runActs_pinv _ (emit_pinv (by simp) (h.congr rfl rfl rfl rfl))
 
 theorem cbClose_pinv (sc : Script) (c : Nat) {s : St} (h : PInv s) : PInv (cbClose sc c s) := by
-  unfold cbClose
-  exact runActs_pinv _ (emit_pinv (by simp) h)
+  have h1 : PInv (runActs (sc.onClose c) (emit (.close c) s)) := runActs_pinv _ (emit_pinv (by simp) h)
+  rcases cbClose_eq sc c s with he | he <;> rw [he]
+  · exact h1
+  · exact h1.congr rfl rfl rfl rfl
 
 theorem handleWake_pinv (sc : Script) {s : St} (h : PInv s) : PInv (handleWake sc s) := by
   unfold handleWake
@@ -368,8 +370,11 @@ theorem cbRead_smono (sc : Script) (c : Nat) (s : St) : SMono s (cbRead sc c s) 
   exact SMono.of_eq rfl rfl rfl rfl rfl
 
 theorem cbClose_smono (sc : Script) (c : Nat) (s : St) : SMono s (cbClose sc c s) := by
-  unfold cbClose
-  exact (emit_smono (e := .close c) (by simp) _).trans (runActs_smono _ _)
+  have h1 : SMono s (runActs (sc.onClose c) (emit (.close c) s)) :=
+    (emit_smono (e := .close c) (by simp) _).trans (runActs_smono _ _)
+  rcases cbClose_eq sc c s with he | he <;> rw [he]
+  · exact h1
+  · exact h1.trans (SMono.of_eq rfl rfl rfl rfl rfl)
 
 theorem handleWake_smono (sc : Script) (s : St) : SMono s (handleWake sc s) := by
   unfold handleWake
@@ -511,9 +516,12 @@ theorem cbRead_mle (sc : Script) (c : Nat) (s : St) : MLe s (cbRead sc c s) := b
   exact MLe.of_eq rfl rfl rfl
 
 theorem cbClose_mle (sc : Script) (c : Nat) (s : St) : MLe s (cbClose sc c s) := by
-  unfold cbClose
-  refine MLe.trans ?_ (runActs_mle _ _)
-  exact MLe.of_eq rfl rfl rfl
+  have h1 : MLe s (runActs (sc.onClose c) (emit (.close c) s)) := by
+    refine MLe.trans ?_ (runActs_mle _ _)
+    exact MLe.of_eq rfl rfl rfl
+  rcases cbClose_eq sc c s with he | he <;> rw [he]
+  · exact h1
+  · exact h1.trans (MLe.of_eq rfl rfl rfl)
 
 theorem handleWake_mle (sc : Script) (s : St) : MLe s (handleWake sc s) := by
   unfold handleWake
@@ -635,8 +643,11 @@ theorem cbRead_srel (sc : Script) (c : Nat) (s : St) : SRel s (cbRead sc c s) :=
   exact SRel.of_eq rfl rfl rfl rfl rfl rfl rfl
 
 theorem cbClose_srel (sc : Script) (c : Nat) (s : St) : SRel s (cbClose sc c s) := by
-  unfold cbClose
-  exact (emit_srel (e := .close c) (by simp) _).trans (runActs_srel _ _)
+  have h1 : SRel s (runActs (sc.onClose c) (emit (.close c) s)) :=
+    (emit_srel (e := .close c) (by simp) _).trans (runActs_srel _ _)
+  rcases cbClose_eq sc c s with he | he <;> rw [he]
+  · exact h1
+  · exact h1.trans (SRel.of_eq rfl rfl rfl rfl rfl rfl rfl)
 
 theorem handleWake_srel (sc : Script) (s : St) : SRel s (handleWake sc s) := by
   unfold handleWake
@@ -735,8 +746,9 @@ theorem selScan_c (sc : Script) (f : Nat) : ∀ (i : Nat) {s : St}, SelPart i s 
         have hic3 := x3.ctx_get hic1
         have hlen3 := x3.len_le
         have i2 := selClose_inv sc i1 p1.backend hic1
+        have i3 := cbClose_inv sc i1 (List.mem_of_getElem? hic1)
         unfold selClose at i2 ⊢
-        generalize cbClose sc c s1 = s3 at r3 m3 x3 p3 hic3 hlen3 i2
+        generalize cbClose sc c s1 = s3 at r3 m3 x3 p3 hic3 hlen3 i2 i3
         unfold scanM at m3
         simp only [] at i2 ⊢
         have hlen2 : (s3.ctxList.eraseIdx i).length = s3.ctxList.length - 1 := by
@@ -752,7 +764,18 @@ theorem selScan_c (sc : Script) (f : Nat) : ∀ (i : Nat) {s : St}, SelPart i s 
           intro j c' hj hc'
           have hc'' : (s3.ctxList.eraseIdx i)[j]? = some c' := hc'
           rw [List.getElem?_eraseIdx_of_lt hj] at hc''
-          exact p3.cover j c' hj hc''
+          obtain ⟨q1, q2⟩ := p3.cover j c' hj hc''
+          refine ⟨?_, q2⟩
+          show c' ∈ (if s3.legacySel then s3.allset else s3.allset.erase c)
+          split
+          · exact q1
+          · -- the closed context is at position i, c' at position j < i: different contexts
+            have hne : c' ≠ c := by
+              intro hh; subst hh
+              have hm : c' ∈ s3.ctxList.eraseIdx i := List.mem_of_getElem? hc'
+              rw [eraseIdx_eq_erase_of_nodup i3.nodupL hic3] at hm
+              exact i3.nodupL.not_mem_erase hm
+            exact (List.mem_erase_of_ne hne).mpr q1
       · -- kept: FD_SET, next node
         have r2 := selSetFd_smono c s1
         apply ih (i + 1) _ (selSetFd_inv c i1)
@@ -838,17 +861,19 @@ theorem selLoop_c (sc : Script) (f : Nat) : ∀ {s : St}, SelC s → Inv none s 
       unfold selQuery
       exact h.step (SRel.of_eq rfl rfl rfl rfl rfl rfl rfl)
     have hiq : Inv none (selQuery s) := by unfold selQuery; exact hi.congr rfl rfl rfl rfl rfl rfl rfl
-    simp only []
     split
-    · rename_i hz
-      have hr := select_block_none_readable h hz
-      exact ih (idle_selc sc hq hr) (idle_inv sc hiq)
-    · have hid : Inv none (emit .disp (selQuery s)) :=
-        inv_emit_of hiq (by simp) (by simp) (by simp) trivial
-      have hcd : SelC (emit .disp (selQuery s)) := hq.step (emit_srel (by simp) _)
-      have h1 := selDispatch_c sc hcd hid
+    · exact ((h.step (emit_srel (e := .waitErr) (by simp) _)).step (act_srel _ _)).noLost
+    · simp only []
       split
-      · exact h1.noLost
-      · exact ih h1 (selDispatch_inv sc hid hq.backend).1
+      · rename_i hz
+        have hr := select_block_none_readable h hz
+        exact ih (idle_selc sc hq hr) (idle_inv sc hiq)
+      · have hid : Inv none (emit .disp (selQuery s)) :=
+          inv_emit_of hiq (by simp) (by simp) (by simp) trivial
+        have hcd : SelC (emit .disp (selQuery s)) := hq.step (emit_srel (by simp) _)
+        have h1 := selDispatch_c sc hcd hid
+        split
+        · exact h1.noLost
+        · exact ih h1 (selDispatch_inv sc hid hq.backend).1
 
 end MgProof.C13
